@@ -419,7 +419,7 @@ Proof. unfold with_pending. fr_auto. Qed.
 Lemma Frame_host_action : forall e a w w0, Frame w w0 -> Frame w (host_action e a w0).
 Proof.
   unfold host_action. intros. destruct a; auto; try (apply Frame_with_pending; auto; fr_auto).
-  fr_auto.
+  all: fr_auto.
 Qed.
 #[export] Hint Resolve Frame_host_action : fr.
 
